@@ -15,6 +15,7 @@ const (
 	DialRefuse                     // fail at once with "connection refused"
 	DialHang                       // never completes: returns when the dial context ends
 	DialLate                       // stays pending until the harness calls Release
+	DialLateForce                  // like DialLate, but the dial function ignores its context: it completes even after the context ended
 )
 
 type pendingDial struct {
@@ -83,7 +84,7 @@ func (d *Dialer) Dial(ctx context.Context) (net.Conn, error) {
 		d.script = d.script[1:]
 	}
 	var p *pendingDial
-	if o == DialLate {
+	if o == DialLate || o == DialLateForce {
 		p = &pendingDial{ctx: ctx, release: make(chan bool, 1)}
 		d.pending = append(d.pending, p)
 	}
@@ -94,6 +95,11 @@ func (d *Dialer) Dial(ctx context.Context) (net.Conn, error) {
 	case DialHang:
 		<-ctx.Done()
 		return nil, context.Cause(ctx)
+	case DialLateForce:
+		if ok := <-p.release; !ok {
+			return nil, ErrRefused
+		}
+		return d.connect(), nil
 	case DialLate:
 		select {
 		case ok := <-p.release:
